@@ -111,7 +111,8 @@ theorem coveredPos_nil_of_outside {g : Grid} {s e : Int} (h : ∀ t ∈ g.pts, t
   have hm : g.pts.getD i 0 ∈ g.pts := by
     rw [List.getD_eq_getElem?_getD, List.getElem?_eq_getElem hi']
     simp
-  rcases h _ hm with h1 | h1 <;> simp <;> omega
+  generalize g.pts.getD i 0 = t at hm ⊢
+  rcases h t hm with h1 | h1 <;> simp <;> omega
 
 /-- a take period covering no step yields no row … -/
 theorem take_outside_inert {kind : RowKind} {u : Nat} {g : Grid} {mapping : List MapRow} {node : Option String}
@@ -192,10 +193,10 @@ theorem contract_rows_prorated {p : ContractP} {g : Grid} {prices : Prices} {ful
   rcases hr with hr | hr
   · obtain ⟨tk, htk, hrow⟩ := defineRestr_row hr
     obtain ⟨h1, h2, _⟩ := take_prorated hrow
-    exact ⟨a, tk, rfl, Or.inl ⟨htk, h2⟩, h1⟩
+    exact ⟨a, tk, ha, Or.inl ⟨htk, h2⟩, h1⟩
   · obtain ⟨tk, htk, hrow⟩ := defineRestr_row hr
     obtain ⟨h1, h2, _⟩ := take_prorated hrow
-    exact ⟨a, tk, rfl, Or.inr ⟨htk, h2⟩, h1⟩
+    exact ⟨a, tk, ha, Or.inr ⟨htk, h2⟩, h1⟩
 
 /-- rows of an extended transport: taken at the FIRST node (factor −1), volume negated, `L` for a maximum
     and `U` for a minimum take -/
@@ -213,10 +214,66 @@ theorem ext_transport_rows_prorated {p : TransportP} {g : Grid} {prices : Prices
   · obtain ⟨tk', htk, hrow⟩ := defineRestr_row hr
     obtain ⟨tk, htk0, rfl⟩ := List.mem_map.mp htk
     obtain ⟨h1, h2, _⟩ := take_prorated hrow
-    exact ⟨a, tk, rfl, Or.inl ⟨htk0, h2⟩, h1⟩
+    exact ⟨a, tk, ha, Or.inl ⟨htk0, h2⟩, h1⟩
   · obtain ⟨tk', htk, hrow⟩ := defineRestr_row hr
     obtain ⟨tk, htk0, rfl⟩ := List.mem_map.mp htk
     obtain ⟨h1, h2, _⟩ := take_prorated hrow
-    exact ⟨a, tk, rfl, Or.inr ⟨htk0, h2⟩, h1⟩
+    exact ⟨a, tk, ha, Or.inr ⟨htk0, h2⟩, h1⟩
 
 end EAO.C08
+
+/-! ### non-vacuity: concrete instances (evaluated by the kernel) -/
+namespace EAO.C08.Ex
+open EAO
+
+/-- hourly horizon of three steps; the asset's window keeps steps 1 and 2 -/
+def g : Grid := { pts := [3600, 7200], idx := [1, 2], dt := [1, 1], Dt := [2, 3], df := [1, 1] }
+def gEmpty : Grid := { pts := [], idx := [], dt := [], Dt := [], df := [] }
+def prices : Prices := [("p", [10, 20, 30])]
+/-- buy/sell contract with a spread; a minimum take over [0 h, 2 h) (half of it inside the window) and a maximum
+    take far after the horizon -/
+def p : ContractP :=
+  { name := "c", nodes := ["n"], price := some "p", extraCosts := .scalar 1, minCap := .scalar (-2), maxCap := .scalar 3,
+    minTake := [(0, 7200, 4)], maxTake := [(100000, 200000, 5)] }
+def tr : TransportP :=
+  { name := "t", nodes := ["a", "b"], costsConst := 1, costsKey := some "p", minCap := -2, maxCap := 0,
+    efficiency := 1/2, minTake := [], maxTake := [(3600, 10800, 6)] }
+
+example : g.Ok := by decide
+example : gEmpty.Ok ∧ gEmpty.T = 0 := by decide
+
+-- two variables per step, one prorated row (4 · 1 h / 2 h = 2), nothing from the period outside
+example : (match buildContract p g prices 3 3600 with
+    | .ok P => P.c == [19, 29, 21, 31] && P.l == [-2, -2, 0, 0] && P.u == [0, 0, 3, 3]
+               && P.rows.map (fun r => (r.coeffs, r.rhs)) == [([(0, 1), (2, 1)], 2)]
+               && P.mapping.map (fun m => (m.var, m.step, m.varName)) ==
+                    [(0, 1, "disp_in"), (1, 2, "disp_in"), (2, 1, "disp_out"), (3, 2, "disp_out")]
+    | .error _ => false) = true := by decide +kernel
+
+-- empty window: the hypotheses of `empty_window_inert` are met by a successful build
+example : (match buildContract p gEmpty prices 3 3600 with
+    | .ok P => P.c.isEmpty && P.rows.isEmpty && P.mapping.isEmpty
+    | .error _ => false) = true := by decide +kernel
+
+-- the period after the horizon covers no step
+example : coveredPos g 100000 200000 = [] := by decide +kernel
+
+-- transport in negative direction: one variable per step, two mapping rows, costs negated, take row at node "a"
+example : (match buildExtTransport tr g prices 3 3600 with
+    | .ok P => P.c == [-21, -31] && P.l == [-2, -2] && P.u == [0, 0]
+               && P.rows.map (fun r => (r.coeffs, r.rhs)) == [([(0, -1), (1, -1)], -6)]
+               && P.mapping.map (fun m => (m.var, m.node, m.factor)) ==
+                    [(0, some "a", -1), (1, some "a", -1), (0, some "b", 1/2), (1, some "b", 1/2)]
+    | .error _ => false) = true := by decide +kernel
+
+-- error branches
+example : (match buildSimpleContract { p with minCap := .scalar 5 } g prices 3 with
+    | .error .illPosed => true | _ => false) = true := by decide +kernel
+example : (match buildSimpleContract { p with maxCap := .intervals [⟨7200, none, 3⟩] } g prices 3 with
+    | .error .nanInput => true | _ => false) = true := by decide +kernel
+example : (match buildSimpleContract p g prices 4 with
+    | .error .lengthMismatch => true | _ => false) = true := by decide +kernel
+example : (match buildTransport { tr with maxCap := 1 } g prices 3 with
+    | .error .notImplemented => true | _ => false) = true := by decide +kernel
+
+end EAO.C08.Ex
